@@ -1268,13 +1268,6 @@ def run(ck: Check):
         id_rows = gate_identity.write()
     except Exception as e:
         raise InfraError(f'translate/gate_identity.py failed: {e!r}')
-    proved = ck.lean_obligations()
-    ck.coverage['shape_rows'] = len(shape_rows)
-    ck.coverage['identity_rows'] = len(id_rows)
-    ck.coverage['identity_rows_with_own_eq_or_hash'] = sum(
-        1 for r in id_rows if r[1] != 'object' or r[2] != 'object')
-    phase('lean')
-
     # ------------------------------------------------------------ discovery
     found = discover()
     ck.coverage['exported_names'] = len(found)
@@ -1285,9 +1278,23 @@ def run(ck: Check):
         ('cls', 'MeasurementPlaceholder', ([('c', 2)], {0: ('c', 0), 1: ('c', 1)})),
     ]
     special_specs = [s for s in special_specs if s[1] in found]
+    ctx = mp.get_context('fork')
+    # the identity families (== / hash over argument variants) run in a child process
+    # while Lean checks the obligations
+    from harness import c18_identity
+    id_pool = ctx.Pool(1)
+    id_async = id_pool.apply_async(
+        c18_identity.run_recorded,
+        (found, base_specs + special_specs, rng.getrandbits(48), thorough))
+
+    proved = ck.lean_obligations()
+    ck.coverage['shape_rows'] = len(shape_rows)
+    ck.coverage['identity_rows'] = len(id_rows)
+    ck.coverage['identity_rows_with_own_eq_or_hash'] = sum(
+        1 for r in id_rows if r[1] != 'object' or r[2] != 'object')
+    phase('lean')
 
     nproc = min(8, os.cpu_count() or 2)
-    ctx = mp.get_context('fork')
 
     def run_batch(specs, phase, bad_opt=frozenset()):
         tasks = []
@@ -1587,15 +1594,21 @@ def run(ck: Check):
     phase('eq')
 
     # ------------------- identity families: == / hash over argument variants
-    from harness import c18_identity
     try:
-        ck.coverage['identity_families'] = c18_identity.check_identity(
-            ck, found, base_specs + special_specs, rng, thorough)
-    except InfraError:
-        raise
+        rec = id_async.get(timeout=3000)
     except Exception as e:
-        import traceback
-        raise InfraError('identity families failed:\n' + traceback.format_exc())
+        raise InfraError(f'identity families: child process failed: {e!r}')
+    finally:
+        id_pool.terminate()
+    if 'error' in rec:
+        raise InfraError('identity families failed:\n' + rec['error'])
+    for key in rec['counts']:
+        ck.count(key)
+    for sm in rec['samples']:
+        ck.sample(sm, limit=8)
+    for sig, what, rep, fi in rec['violations']:
+        ck.violation(sig, what, rep, found_input=fi)
+    ck.coverage['identity_families'] = rec['stats']
     phase('identity')
 
     # ------------------------------------------------------ malformed stream
